@@ -643,6 +643,313 @@ theorem encStream_any_split (enc : Basex.Enc) (he : enc.WF) (ws : List Bytes) :
     simp only [List.flatten_append, List.flatten_cons, List.flatten_nil, List.append_nil]
     rw [hA3, hA2, henc, encode_append_of_dvd enc he A _ hA1]
 
+/-! ### an underlying writer that may fail (`sink` arbitrary): C14 -/
+
+theorem under_true (s : EncState) (d : Bytes) (h : (s.under d).1 = true) :
+    (s.under d).2.enc = s.enc ∧ (s.under d).2.buf = s.buf ∧ (s.under d).2.failed = s.failed ∧
+    (s.under d).2.written = s.written ++ [d] := by
+  unfold EncState.under at h ⊢
+  cases hs : s.sink with
+  | nil => simp
+  | cons f rest =>
+    cases f with
+    | true => simp [hs] at h
+    | false => simp
+
+theorem under_false (s : EncState) (d : Bytes) (h : (s.under d).1 = false) : (s.under d).2.failed = true :=
+  ((under_spec s d).2.2).mpr (Or.inl h)
+
+/-- `interior` over any sink: either an underlying write failed (reported, flag
+    set), or everything is as with a writer that never fails -/
+theorem interior_ok : ∀ (fuel : Nat) (s : EncState) (p : Bytes) (n : Nat),
+    s.enc.WF → s.failed = false → p.length < fuel →
+    let r := EncState.interior fuel s p n
+    (r.1 = false ∧ r.2.1.failed = true) ∨
+    (r.1 = true ∧ r.2.1.enc = s.enc ∧ r.2.1.failed = false ∧ r.2.1.buf = s.buf ∧
+      r.2.2.1.length < s.enc.blockLen ∧
+      ∃ B, s.enc.blockLen ∣ B.length ∧ p = B ++ r.2.2.1 ∧
+        r.2.1.written.flatten = s.written.flatten ++ Basex.encode s.enc B) := by
+  intro fuel
+  induction fuel with
+  | zero => intro s p n _ _ h; omega
+  | succ fuel ih =>
+    intro s p n he hf hl
+    unfold EncState.interior
+    by_cases hge : p.length ≥ s.enc.blockLen
+    · simp only [if_pos hge]
+      have hnn := nn_spec s.enc.blockLen p.length he.block_pos hge
+      generalize (if 128 * s.enc.blockLen > p.length then p.length - p.length % s.enc.blockLen else 128 * s.enc.blockLen) = nn at hnn
+      simp only at hnn
+      obtain ⟨hn1, hn2, hn3⟩ := hnn
+      cases hu : (s.under (Basex.encode s.enc (p.take nn))).1 with
+      | false =>
+        simp only [Bool.not_false, if_true]
+        exact Or.inl ⟨trivial, under_false s _ hu⟩
+      | true =>
+        simp only [Bool.not_true, Bool.false_eq_true, if_false]
+        obtain ⟨u1, u2, u3, u4⟩ := under_true s _ hu
+        have hpos := he.block_pos
+        have ih' := ih (s.under (Basex.encode s.enc (p.take nn))).2 (p.drop nn) (n + nn) (by rw [u1]; exact he)
+          (by rw [u3]; exact hf) (by rw [List.length_drop]; omega)
+        simp only at ih'
+        rcases ih' with ih' | ⟨i1, i2, i4, i5, i6, B, hB1, hB2, hB3⟩
+        · exact Or.inl ih'
+        · rw [u1] at i6 hB1 hB3 i2
+          refine Or.inr ⟨i1, i2, i4, i5.trans u2, i6, p.take nn ++ B, ?_, ?_, ?_⟩
+          · rw [List.length_append, List.length_take, Nat.min_eq_left hn3]
+            exact (Nat.dvd_add_right hn1).mpr hB1
+          · rw [List.append_assoc, ← hB2, List.take_append_drop]
+          · rw [hB3, u4]
+            simp only [List.flatten_append, List.flatten_cons, List.flatten_nil, List.append_nil]
+            rw [encode_append_of_dvd s.enc he (p.take nn) B (by rw [List.length_take, Nat.min_eq_left hn3]; exact hn1),
+              List.append_assoc]
+    · simp only [if_neg hge]
+      exact Or.inr ⟨trivial, trivial, hf, trivial, by omega, [], by simp, by simp, by simp [encode_nil]⟩
+
+theorem encRest_ok (s : EncState) (p : Bytes) (n : Nat) (he : s.enc.WF) (hf : s.failed = false) :
+    ((encRest s p n).2.1 = false ∧ (encRest s p n).2.2.failed = true) ∨
+    ((encRest s p n).2.1 = true ∧ (encRest s p n).2.2.enc = s.enc ∧
+      (encRest s p n).2.2.failed = false ∧ (encRest s p n).2.2.buf.length < s.enc.blockLen ∧
+      ∃ B, s.enc.blockLen ∣ B.length ∧ p = B ++ (encRest s p n).2.2.buf ∧
+        (encRest s p n).2.2.written.flatten = s.written.flatten ++ Basex.encode s.enc B) := by
+  have h := interior_ok (p.length + 1) s p n he hf (by omega)
+  simp only at h
+  unfold encRest
+  rcases h with ⟨i1, i2⟩ | ⟨i1, i2, i4, i5, i6, B, hB1, hB2, hB3⟩
+  · simp only [i1, Bool.not_false, if_true]
+    exact Or.inl ⟨trivial, i2⟩
+  · simp only [i1, Bool.not_true, Bool.false_eq_true, if_false]
+    exact Or.inr ⟨trivial, i2, i4, i6, B, hB1, hB2, hB3⟩
+
+/-- invariant of the encoder stream as long as no underlying write has failed
+    (the sink is arbitrary) -/
+structure EncInvS (enc : Basex.Enc) (T : Bytes) (s : EncState) : Prop where
+  henc : s.enc = enc
+  nf : s.failed = false
+  bound : s.buf.length < enc.blockLen
+  ex : ∃ A, enc.blockLen ∣ A.length ∧ T = A ++ s.buf ∧ s.written.flatten = Basex.encode enc A
+
+/-- one `Write` over any sink: it reports failure and sets the flag, or it
+    reports success and everything written so far is accounted for -/
+theorem encInvS_write (enc : Basex.Enc) (he : enc.WF) (T : Bytes) (s : EncState) (h : EncInvS enc T s) (p : Bytes) :
+    ((s.write p).2.1 = false ∧ (s.write p).2.2.failed = true) ∨
+    ((s.write p).2.1 = true ∧ EncInvS enc (T ++ p) (s.write p).2.2) := by
+  obtain ⟨henc, hf, hbd, A, hA1, hA2, hA3⟩ := h
+  subst henc
+  by_cases hb : s.buf = []
+  · rw [write_empty s p hf hb]
+    rcases encRest_ok s p 0 he hf with hfail | ⟨r1, r2, r4, r5, B, hB1, hB2, hB3⟩
+    · exact Or.inl hfail
+    · refine Or.inr ⟨r1, r2, r4, r5, A ++ B, ?_, ?_, ?_⟩
+      · rw [List.length_append]; exact (Nat.dvd_add_right hA1).mpr hB1
+      · rw [hA2, hb, List.append_nil, List.append_assoc, ← hB2]
+      · rw [hB3, hA3, encode_append_of_dvd s.enc he A B hA1]
+  · by_cases hl : (encFringe s p).length < s.enc.blockLen
+    · rw [write_short s p hf hb hl]
+      have hbpos : 0 < s.buf.length := List.length_pos_iff.mpr hb
+      have hp : p.take (s.enc.blockLen - s.buf.length) = p := by
+        apply List.take_of_length_le
+        unfold encFringe at hl
+        rw [List.length_append, List.length_take] at hl
+        omega
+      refine Or.inr ⟨rfl, rfl, hf, hl, A, hA1, ?_, hA3⟩
+      show T ++ p = A ++ encFringe s p
+      unfold encFringe
+      rw [hp, hA2, List.append_assoc]
+    · have hbpos : 0 < s.buf.length := List.length_pos_iff.mpr hb
+      have hfl : (encFringe s p).length = s.enc.blockLen := by
+        have : (encFringe s p).length ≤ s.enc.blockLen := by
+          unfold encFringe
+          rw [List.length_append, List.length_take]; omega
+        omega
+      obtain ⟨f1, f2, f3⟩ := encFringeU_spec s p
+      cases hu : (encFringeU s p).1 with
+      | false =>
+        rw [write_long_fail s p hf hb hl hu]
+        exact Or.inl ⟨rfl, f3.mpr (Or.inl hu)⟩
+      | true =>
+        rw [write_long_ok s p hf hb hl hu]
+        obtain ⟨u1, u2, u3, u4⟩ := under_true { s with buf := [] } (Basex.encode s.enc (encFringe s p)) hu
+        have hfu : (encFringeU s p).2.failed = false := u3.trans hf
+        rcases encRest_ok (encFringeU s p).2 (p.drop (encTl s p)) (encTl s p) (by rw [f1]; exact he) hfu with
+          hfail | ⟨r1, r2, r4, r5, B, hB1, hB2, hB3⟩
+        · exact Or.inl hfail
+        · rw [f1] at r2 r5 hB1 hB3
+          refine Or.inr ⟨r1, r2, r4, r5, A ++ encFringe s p ++ B, ?_, ?_, ?_⟩
+          · rw [List.length_append, List.length_append, hfl]
+            exact (Nat.dvd_add_right ((Nat.dvd_add_right hA1).mpr (Nat.dvd_refl _))).mpr hB1
+          · rw [List.append_assoc (A ++ encFringe s p), ← hB2, hA2]
+            unfold encFringe encTl
+            simp only [List.append_assoc]
+            rw [take_drop_length]
+          · have hd2 : s.enc.blockLen ∣ (A ++ encFringe s p).length := by
+              rw [List.length_append, hfl]; exact (Nat.dvd_add_right hA1).mpr (Nat.dvd_refl _)
+            have hw : (encFringeU s p).2.written = s.written ++ [Basex.encode s.enc (encFringe s p)] := u4
+            rw [hB3, hw, encode_append_of_dvd s.enc he _ B hd2, encode_append_of_dvd s.enc he A _ hA1, ← hA3]
+            simp
+
+theorem foldl_write_failed (ws : List Bytes) : ∀ (s : EncState), s.failed = true →
+    (ws.foldl (fun (s : EncState) w => (s.write w).2.2) s).failed = true := by
+  induction ws with
+  | nil => intro s h; exact h
+  | cons w ws ih =>
+    intro s h
+    rw [List.foldl_cons]
+    exact ih _ (by rw [write_failed s w h]; exact h)
+
+theorem encInvS_fold (enc : Basex.Enc) (he : enc.WF) (ws : List Bytes) : ∀ (T : Bytes) (s : EncState), EncInvS enc T s →
+    (ws.foldl (fun (s : EncState) w => (s.write w).2.2) s).failed = true ∨
+    EncInvS enc (T ++ ws.flatten) (ws.foldl (fun (s : EncState) w => (s.write w).2.2) s) := by
+  induction ws with
+  | nil => intro T s h; right; simpa using h
+  | cons w ws ih =>
+    intro T s h
+    rw [List.foldl_cons, List.flatten_cons, ← List.append_assoc]
+    rcases encInvS_write enc he T s h w with ⟨_, hfail⟩ | ⟨_, hinv⟩
+    · exact Or.inl (foldl_write_failed ws _ hfail)
+    · exact ih _ _ hinv
+
+/-- **`Close` reports success only for a completely written message**, whatever
+    the underlying writer does: if after any sequence of `Write`s (whatever
+    they reported) `Close` returns no error, then what reached the underlying
+    writer is exactly the encoding of everything that was written. -/
+theorem encStream_close_ok_all_written (enc : Basex.Enc) (he : enc.WF) (sink : Sink) (ws : List Bytes) :
+    let s1 := ws.foldl (fun (s : EncState) w => (s.write w).2.2) ({ enc := enc, sink := sink } : EncState)
+    s1.close.1 = true → s1.close.2.written.flatten = Basex.encode enc ws.flatten := by
+  intro s1 hc
+  have hinv := encInvS_fold enc he ws [] { enc := enc, sink := sink }
+    ⟨rfl, rfl, he.block_pos, [], by simp, rfl, by simp [encode_nil]⟩
+  rw [List.nil_append] at hinv
+  rcases hinv with hfail | hinv
+  · have : s1.close.1 = false := by
+      unfold EncState.close
+      simp [show s1.failed = true from hfail]
+    rw [hc] at this; exact absurd this (by decide)
+  · obtain ⟨henc, hf, hbd, A, hA1, hA2, hA3⟩ := hinv
+    have hf' : s1.failed = false := hf
+    have hA3' : s1.written.flatten = Basex.encode enc A := hA3
+    have hA2' : ws.flatten = A ++ s1.buf := hA2
+    have henc' : s1.enc = enc := henc
+    unfold EncState.close at hc ⊢
+    by_cases hb : s1.buf = []
+    · rw [if_neg (by simp [hb])]
+      rw [hA3', hA2', hb, List.append_nil]
+    · rw [if_pos (by simp [hf', hb])] at hc ⊢
+      simp only at hc ⊢
+      obtain ⟨u1, u2, u3, u4⟩ := under_true s1 _ hc
+      rw [u4]
+      simp only [List.flatten_append, List.flatten_cons, List.flatten_nil, List.append_nil]
+      rw [hA3', hA2', henc', encode_append_of_dvd enc he A _ hA1]
+
+/-! the fault side: every failing underlying write is reported -/
+
+/-- `s'` was reached from `s` by consuming the sink entries `c` (one per
+    underlying write), and its sticky flag is set iff one of them failed -/
+def Consumes (s s' : EncState) : Prop :=
+  ∃ c : List Bool, s.sink = c ++ s'.sink ∧ s'.failed = (s.failed || c.contains true)
+
+theorem Consumes.refl (s : EncState) : Consumes s s := ⟨[], by simp, by simp⟩
+
+theorem Consumes.trans {a b c : EncState} (h1 : Consumes a b) (h2 : Consumes b c) : Consumes a c := by
+  obtain ⟨c1, s1, f1⟩ := h1
+  obtain ⟨c2, s2, f2⟩ := h2
+  refine ⟨c1 ++ c2, by rw [s1, s2, List.append_assoc], ?_⟩
+  rw [f2, f1]
+  simp [Bool.or_assoc]
+
+theorem consumes_under (s : EncState) (d : Bytes) : Consumes s (s.under d).2 := by
+  unfold EncState.under
+  cases hs : s.sink with
+  | nil => exact ⟨[], by simp [hs], by simp⟩
+  | cons f rest =>
+    cases f with
+    | true => exact ⟨[true], by simp [hs], by simp⟩
+    | false => exact ⟨[false], by simp [hs], by simp⟩
+
+theorem consumes_interior : ∀ (fuel : Nat) (s : EncState) (p : Bytes) (n : Nat),
+    Consumes s (EncState.interior fuel s p n).2.1 := by
+  intro fuel
+  induction fuel with
+  | zero => intro s p n; exact Consumes.refl s
+  | succ fuel ih =>
+    intro s p n
+    unfold EncState.interior
+    by_cases hge : p.length ≥ s.enc.blockLen
+    · simp only [if_pos hge]
+      generalize (if 128 * s.enc.blockLen > p.length then p.length - p.length % s.enc.blockLen else 128 * s.enc.blockLen) = nn
+      have hu := consumes_under s (Basex.encode s.enc (p.take nn))
+      cases hb : (s.under (Basex.encode s.enc (p.take nn))).1 with
+      | false => simp only [Bool.not_false, if_true]; exact hu
+      | true =>
+        simp only [Bool.not_true, Bool.false_eq_true, if_false]
+        exact hu.trans (ih _ _ _)
+    · simp only [if_neg hge]; exact Consumes.refl s
+
+theorem consumes_encRest (s : EncState) (p : Bytes) (n : Nat) : Consumes s (encRest s p n).2.2 := by
+  have h := consumes_interior (p.length + 1) s p n
+  unfold encRest
+  cases hr : (EncState.interior (p.length + 1) s p n).1 with
+  | false => simp only [hr, Bool.not_false, if_true]; exact h
+  | true => simp only [hr, Bool.not_true, Bool.false_eq_true, if_false]; exact h
+
+theorem consumes_write (s : EncState) (p : Bytes) : Consumes s (s.write p).2.2 := by
+  rw [write_eq]
+  split
+  · exact Consumes.refl s
+  · split
+    · split
+      · exact Consumes.refl s
+      · have hu : Consumes s (encFringeU s p).2 := consumes_under { s with buf := [] } _
+        split
+        · exact hu
+        · exact hu.trans (consumes_encRest _ _ _)
+    · exact consumes_encRest s p 0
+
+theorem consumes_close (s : EncState) : Consumes s s.close.2 := by
+  unfold EncState.close
+  split
+  · exact consumes_under s _
+  · exact Consumes.refl s
+
+theorem consumes_fold (ws : List Bytes) : ∀ (s : EncState),
+    Consumes s (ws.foldl (fun (s : EncState) w => (s.write w).2.2) s) := by
+  induction ws with
+  | nil => intro s; exact Consumes.refl s
+  | cons w ws ih => intro s; rw [List.foldl_cons]; exact (consumes_write s w).trans (ih _)
+
+/-- the consumed part of the sink is determined by the two states -/
+theorem Consumes.flag {s s' : EncState} (h : Consumes s s') (consumed : List Bool)
+    (hc : s.sink = consumed ++ s'.sink) : s'.failed = (s.failed || consumed.contains true) := by
+  obtain ⟨c, hs, hf⟩ := h
+  have : consumed = c := by
+    rw [hs] at hc
+    exact (List.append_cancel_right hc).symm
+  rw [this]; exact hf
+
+/-- **Every failing underlying write is reported by the call it happens in**:
+    a `Write` during which a failing entry of the sink was consumed returns an error -/
+theorem encStream_write_fault_reported (s : EncState) (p : Bytes) (consumed : List Bool)
+    (hc : s.sink = consumed ++ (s.write p).2.2.sink) (ht : true ∈ consumed) : (s.write p).2.1 = false := by
+  have hfl := (consumes_write s p).flag consumed hc
+  have hfailed : (s.write p).2.2.failed = true := by
+    rw [hfl]; simp [ht]
+  rcases encStream_write_reports s p hfailed with h | h
+  · exact h
+  · rw [write_failed s p h]
+
+/-- **…and by `Close`, whichever call hit it**: if, between the creation of the
+    encoder and the end of `Close`, a failing entry of the sink was consumed —
+    an underlying write failed — then `Close` returns an error -/
+theorem encStream_fault_reported (enc : Basex.Enc) (sink : Sink) (ws : List Bytes) (consumed : List Bool) :
+    let s1 := ws.foldl (fun (s : EncState) w => (s.write w).2.2) ({ enc := enc, sink := sink } : EncState)
+    sink = consumed ++ s1.close.2.sink → true ∈ consumed → s1.close.1 = false := by
+  intro s1 hc ht
+  have hcons : Consumes ({ enc := enc, sink := sink } : EncState) s1.close.2 :=
+    (consumes_fold ws _).trans (consumes_close s1)
+  have hfl := hcons.flag consumed hc
+  apply encStream_close_reports
+  rw [hfl]; simp [ht]
+
 /-! ## the scripted source: fragmentation -/
 
 /-- the bytes a script delivers before its first condition -/
